@@ -77,6 +77,10 @@ func VerifyDocument(ctx context.Context,
 
 	voff := sql.EncLenLen + sql.EncIDLen
 
+	if len(proof.EncodedDocument) < voff {
+		return nil, fmt.Errorf("%w: the proof contains invalid document data", store.ErrInvalidProof)
+	}
+
 	// DocumentIDField
 	_, n, err := sql.DecodeValue(proof.EncodedDocument[voff:], sql.BLOBType)
 	if err != nil {
@@ -88,6 +92,10 @@ func VerifyDocument(ctx context.Context,
 	}
 
 	voff += n + sql.EncIDLen
+
+	if len(proof.EncodedDocument) < voff {
+		return nil, fmt.Errorf("%w: the proof contains invalid document data", store.ErrInvalidProof)
+	}
 
 	// DocumentBLOBField
 	encodedDoc, _, err := sql.DecodeValue(proof.EncodedDocument[voff:], sql.BLOBType)
